@@ -1,12 +1,15 @@
 import Toq.Driver.Util
 import Toq.Driver.QJson
 import Toq.Model.Games
+import Toq.Model.GamesExtra
 import Toq.Model.Npa
+import Toq.Driver.C07Seesaw
 /-! Driver front end for C07 (nonlocal games): tensors arrive as flat C-order lists of rationals
 (`[num, den]` or integers), are turned into index functions, and the mirror models of
 `Toq/Model/Games.lean` are evaluated on them.
 
 Ops: `c07_classical_value` (mirror of the code as it is), `c07_classical_value_fixed` (repaired bound),
+`c07_classical_value_code` (the code with its `num_iterations > 1000` multiprocessing branch, `Toq/Model/GamesExtra.lean`),
 `c07_max_det` (brute force over all strategy pairs = the specification), `c07_product_game`
 (`reps` branch of the constructor), `c07_bcs_game` (`from_bcs_game`), `c07_history` (state machine; `classical` steps use the repaired bound, as /repo does since the fix).
 
@@ -102,8 +105,12 @@ def bcsGame : Handler := fun j => do
     return reject "ConstantConstraint"
   let prob := arrayOfMat m n (bcsProb m n c)
   let pred := arrayOfPred (2 ^ n) 2 m n (bcsPred n c)
-  return Json.mkObj [("shape", natListJson [2 ^ n, 2, m, n]), ("prob", ratArrayJson prob),
-    ("pred", ratArrayJson pred)]
+  -- `return cls(prob_mat, pred_mat, reps)`: the constructor's `reps` branch on the BCS tensors
+  let reps := (getNat j "reps").toOption.getD 1
+  if reps == 0 then return reject "InvalidGame"
+  let g := construct ⟨2 ^ n, 2, m, n, reps, prob, pred⟩
+  return Json.mkObj [("shape", natListJson [g.ao, g.bo, g.ai, g.bi]), ("prob", ratArrayJson g.prob),
+    ("pred", ratArrayJson g.pred), ("reps", Json.num g.reps)]
 
 def parseOp (s : String) : Except String Op :=
   match s with
@@ -268,6 +275,7 @@ end Npa
 def handlers : List (String × Handler) := [
   ("c07_classical_value", valueOp classicalValue),
   ("c07_classical_value_fixed", valueOp classicalValueFixed),
+  ("c07_classical_value_code", valueOp classicalValueCode),
   ("c07_max_det", valueOp maxDetBrute),
   ("c07_product_game", productGame),
   ("c07_bcs_game", bcsGame),
@@ -277,6 +285,6 @@ def handlers : List (String × Handler) := [
   ("c07_npa_words", npaWords),
   ("c07_npa_reduce", npaReduce),
   ("c07_npa_constraints", npaConstraintsOp),
-  ("c07_npa_embed", npaEmbed)]
+  ("c07_npa_embed", npaEmbed)] ++ Toq.Driver.C07Seesaw.handlers
 
 end Toq.Driver.C07
